@@ -8,11 +8,13 @@ package cluster
 // ---- SSZ put helpers: every byte of the argument reaches the hasher --------------------------------
 
 //@ func leftPad
-//@ assume-contract pads b on the left with zero bytes up to length l (loop over append not modelled)
+//@ props C12
 //@ pure
-//@ ensures len(result) >= l && len(result) >= len(b) && (len(b) >= l ==> result == b)
-//@ ensures forall(i, 0, len(b), result[len(result) - len(b) + i] == b[i]) && forall(i, 0, len(result) - len(b), result[i] == 0)
-//@ ensures len(b) < l ==> len(result) == l
+//@ ensures len(result) >= l && len(result) >= len(old(b)) && (len(old(b)) >= l ==> result == old(b))
+//@ ensures forall(i, 0, len(old(b)), result[len(result) - len(old(b)) + i] == old(b)[i]) && forall(i, 0, len(result) - len(old(b)), result[i] == 0)
+//@ ensures len(old(b)) < l ==> len(result) == l
+//@ loop 1 invariant len(b) >= len(old(b)) && (len(old(b)) >= l ==> b == old(b)) && (len(old(b)) < l ==> len(b) <= l)
+//@ loop 1 invariant forall(i, 0, len(old(b)), b[len(b) - len(old(b)) + i] == old(b)[i]) && forall(i, 0, len(b) - len(old(b)), b[i] == 0)
 
 //@ func putByteList
 //@ props C12
@@ -43,7 +45,7 @@ package cluster
 //@ ensures result != nil ==> ncalls(h.PutBytes) == 0
 
 //@ func from0xHex
-//@ assume-contract deterministic hex decoding (encoding/hex); a non-empty input decodes to exactly 'length' bytes or fails
+//@ props C12
 //@ pure
 //@ ensures r1 == nil && s != "" ==> len(r0) == length
 //@ ensures s == "" ==> r1 == nil && len(r0) == 0
